@@ -207,7 +207,9 @@ def axis_check(spec):
     with impl(fn, **sig), np.errstate(all="ignore"):
         r = getattr(da, fn)(d, a["q"], **kw)
         got = r.compute(scheduler="sync")
-    eps = float(np.finfo(np.asarray(want).dtype if np.asarray(want).dtype.kind == "f" else "f8").eps)
+    # rounding of the linear interpolation: NumPy evaluates a + (b - a) * t with (b - a) in the INPUT precision, dask's fast path
+    # b * t + a * (1 - t) in float64 -- both correct to the coarser of input and output precision, which is all "equals" can mean
+    eps = max(float(np.finfo(dt).eps) for dt in (np.asarray(want).dtype, x.dtype) if dt.kind == "f") if (np.asarray(want).dtype.kind == "f" or x.dtype.kind == "f") else float(np.finfo("f8").eps)
     mag = float(np.nanmax(np.abs(x[np.isfinite(x)]), initial=1.0)) if x.dtype.kind == "f" else float(np.abs(x).max(initial=1))
     A.same_array(got, want, exact=False, rtol=4 * eps, atol=4 * eps * mag, what=f"{fn}(q={a['q']}, {kw})", sig=sig, check_dtype=np.asarray(want).dtype.kind == "f")
     A.check_meta(r, got, what=fn, sig=sig)
